@@ -99,6 +99,341 @@ def _modname(o):
     return m if isinstance(m, str) else ""
 
 
+class ReachingDefs:
+    """Intraprocedural reaching definitions for the local variables of ONE function, on the structured AST.
+
+    For every read `x` (Name, Load) that is evaluated in the function's own scope it computes the set of BINDING
+    SITES of x that can have produced the value the read sees: "param" (the value bound by the call), "unbound",
+    or the position (lineno, col) of a binding Name / statement.  reach[id(name_node)] is None where this is not
+    known (reads inside lambdas, nested functions and generator expressions, which run later; names that are
+    bound by a walrus or declared global / nonlocal; reads of comprehension variables).
+
+    Control flow: statements of a block in order; `if` joins its branches; loops are iterated to a fixpoint
+    (back edge from the end of the body and from `continue`, exit from the test and from `break`); return / raise
+    end a path; an exception may leave a `try` body (or a `with` body whose manager may swallow it) after ANY
+    prefix of its statements, so a handler, a `finally` and the code after a `with` are entered with the join of
+    the states before, inside and after that body.  Within one expression statement all reads see the state before
+    the statement, except that the targets of an assignment are bound after its value was read.
+    """
+
+    def __init__(self, fnode, const_test=None):
+        self.fnode = fnode
+        self.const_test = const_test  # test expression -> True / False when constant under the run's assumptions, else ...
+        self.reach = {}
+        self.bad = set()  # names never tracked
+        a = fnode.args
+        self.params = [x.arg for x in a.posonlyargs + a.args + a.kwonlyargs] + ([a.vararg.arg] if a.vararg else []) + ([a.kwarg.arg] if a.kwarg else [])
+        self.ok = True
+        body = fnode.body if isinstance(fnode.body, list) else None
+        if body is None:
+            self.ok = False
+            return
+        for n in ast.walk(fnode):
+            if isinstance(n, ast.NamedExpr) and isinstance(n.target, ast.Name):
+                self.bad.add(n.target.id)
+            elif isinstance(n, (ast.Global, ast.Nonlocal)):
+                self.bad.update(n.names)
+        names = set(self.params)
+
+        def own(n):
+            # the names bound in THIS function's scope (not inside nested functions / classes / comprehensions)
+            if isinstance(n, ast.Name):
+                if isinstance(n.ctx, (ast.Store, ast.Del)):
+                    names.add(n.id)
+                return
+            if isinstance(n, (ast.FunctionDef, ast.AsyncFunctionDef, ast.ClassDef)):
+                names.add(n.name)
+                for d in n.decorator_list:
+                    own(d)
+                return
+            if isinstance(n, ast.Lambda):
+                return
+            if isinstance(n, (ast.ListComp, ast.SetComp, ast.DictComp, ast.GeneratorExp)):
+                own(n.generators[0].iter)  # only the first iterable is evaluated in the enclosing scope
+                return
+            if isinstance(n, (ast.Import, ast.ImportFrom)):
+                names.update((al.asname or al.name).split(".")[0] for al in n.names)
+            elif isinstance(n, ast.ExceptHandler) and n.name:
+                names.add(n.name)
+            elif isinstance(n, (ast.MatchAs, ast.MatchStar)) and n.name:
+                names.add(n.name)
+            elif isinstance(n, ast.MatchMapping) and n.rest:
+                names.add(n.rest)
+            for c in ast.iter_child_nodes(n):
+                own(c)
+
+        for st in body:
+            own(st)
+        self.names = names - self.bad
+        st0 = {n: frozenset(["param"]) if n in self.params else frozenset(["unbound"]) for n in self.names}
+        self.loops = []
+        try:
+            self.block(body, st0)
+        except RecursionError:
+            self.ok = False
+
+    # -- lattice -----------------------------------------------------------------------------------------
+    @staticmethod
+    def join(a, b):
+        if a is None:
+            return b
+        if b is None:
+            return a
+        if a is b:
+            return a
+        return {k: (a[k] | b[k]) for k in a}
+
+    def bind(self, state, name, site):
+        if state is None or name not in self.names:
+            return state
+        st = dict(state)
+        st[name] = frozenset([site])
+        return st
+
+    def bind_target(self, state, t, other=False):
+        if state is None:
+            return None
+        if isinstance(t, ast.Name):
+            return self.bind(state, t.id, ("other", t.lineno, t.col_offset) if other else (t.lineno, t.col_offset))
+        if isinstance(t, (ast.Tuple, ast.List)):
+            for e in t.elts:
+                state = self.bind_target(state, e, other)
+            return state
+        if isinstance(t, ast.Starred):
+            return self.bind_target(state, t.value, other)
+        self.expr(t, state)  # attribute / subscript target: its sub-expressions are reads
+        return state
+
+    # -- expressions: record what every read sees -----------------------------------------------------------------
+    def expr(self, e, state, deferred=False, shadow=frozenset()):
+        if e is None:
+            return
+        if isinstance(e, ast.Name):
+            if isinstance(e.ctx, ast.Load):
+                if deferred or state is None or e.id in shadow or e.id not in self.names:
+                    self.reach[id(e)] = None
+                else:
+                    prev = self.reach.get(id(e), frozenset())
+                    self.reach[id(e)] = None if prev is None else prev | state[e.id]
+            return
+        if isinstance(e, (ast.Lambda, ast.GeneratorExp)):
+            for c in ast.iter_child_nodes(e):
+                self._walk_deferred(c)
+            return
+        if isinstance(e, (ast.ListComp, ast.SetComp, ast.DictComp)):
+            sh = set(shadow)
+            for g in e.generators:
+                self.expr(g.iter, state, deferred, frozenset(sh))
+                for n in ast.walk(g.target):
+                    if isinstance(n, ast.Name):
+                        sh.add(n.id)
+                for c in g.ifs:
+                    self.expr(c, state, deferred, frozenset(sh))
+            for part in ([e.key, e.value] if isinstance(e, ast.DictComp) else [e.elt]):
+                self.expr(part, state, deferred, frozenset(sh))
+            return
+        for c in ast.iter_child_nodes(e):
+            if isinstance(c, (ast.expr, ast.keyword, ast.comprehension, ast.arguments, ast.arg, ast.FormattedValue, ast.Slice)) or isinstance(c, ast.AST):
+                self.expr(c, state, deferred, shadow)
+
+    def _walk_deferred(self, node):
+        for n in ast.walk(node):
+            if isinstance(n, ast.Name) and isinstance(n.ctx, ast.Load):
+                self.reach[id(n)] = None
+
+    # -- statements ------------------------------------------------------------------------------------------------------
+    def block(self, stmts, state):
+        for s in stmts:
+            state = self.stmt(s, state)
+        return state
+
+    def all_states_of(self, stmts, state):
+        """join of the states before, between and after the statements of a block (exception at any point)"""
+        acc = state
+        cur = state
+        for s in stmts:
+            before = dict(self.reach)
+            cur = self.stmt(s, cur)
+            acc = self.join(acc, cur)
+            # an exception may also occur inside a compound statement: everything it binds may or may not be bound
+            if cur is not None and acc is not None:
+                for n in ast.walk(s):
+                    if isinstance(n, ast.Name) and isinstance(n.ctx, (ast.Store, ast.Del)) and n.id in self.names:
+                        acc = dict(acc)
+                        acc[n.id] = acc[n.id] | frozenset([("other", n.lineno, n.col_offset)]) if not self._simple_site(n) else acc[n.id] | frozenset([(n.lineno, n.col_offset)])
+            elif cur is None:
+                # the rest of the body is unreachable on the normal path, but what was bound so far stays in acc
+                for n in ast.walk(s):
+                    if isinstance(n, ast.Name) and isinstance(n.ctx, (ast.Store, ast.Del)) and n.id in self.names and acc is not None:
+                        acc = dict(acc)
+                        acc[n.id] = acc[n.id] | frozenset([(n.lineno, n.col_offset) if self._simple_site(n) else ("other", n.lineno, n.col_offset)])
+        return acc, cur
+
+    def _simple_site(self, n):
+        return isinstance(n.ctx, ast.Store)
+
+    def stmt(self, s, state):
+        if state is None:
+            # unreachable code: its reads see nothing we need to account for, but keep them defined
+            for n in ast.walk(s):
+                if isinstance(n, ast.Name) and isinstance(n.ctx, ast.Load) and id(n) not in self.reach:
+                    self.reach[id(n)] = frozenset()
+            return None
+        if isinstance(s, ast.Expr):
+            self.expr(s.value, state)
+            return state
+        if isinstance(s, ast.Assign):
+            self.expr(s.value, state)
+            for t in s.targets:
+                state = self.bind_target(state, t)
+            return state
+        if isinstance(s, ast.AnnAssign):
+            if s.value is not None:
+                self.expr(s.value, state)
+                return self.bind_target(state, s.target)
+            return state
+        if isinstance(s, ast.AugAssign):
+            self.expr(s.value, state)
+            if isinstance(s.target, ast.Name):
+                # reads the old binding; the name then refers to the same object (in-place update) or to a new
+                # immutable value: not a tracked definition
+                fake = ast.copy_location(ast.Name(id=s.target.id, ctx=ast.Load()), s.target)
+                self.expr(fake, state)
+                return self.bind(state, s.target.id, ("other", s.target.lineno, s.target.col_offset)) if False else state
+            self.expr(s.target, state)
+            return state
+        if isinstance(s, ast.Delete):
+            for t in s.targets:
+                if isinstance(t, ast.Name):
+                    state = self.bind(state, t.id, "unbound")
+                else:
+                    self.expr(t, state)
+            return state
+        if isinstance(s, (ast.Return,)):
+            self.expr(s.value, state)
+            return None
+        if isinstance(s, ast.Raise):
+            self.expr(s.exc, state)
+            self.expr(s.cause, state)
+            return None
+        if isinstance(s, (ast.Break, ast.Continue)):
+            if self.loops:
+                key = "brk" if isinstance(s, ast.Break) else "cont"
+                self.loops[-1][key] = self.join(self.loops[-1][key], state)
+            return None
+        if isinstance(s, ast.Pass):
+            return state
+        if isinstance(s, ast.If):
+            self.expr(s.test, state)
+            c = self.const_test(s.test) if self.const_test is not None else ...
+            if c is not ...:
+                return self.block(s.body if c else s.orelse, state)
+            return self.join(self.block(s.body, state), self.block(s.orelse, state))
+        if isinstance(s, (ast.For, ast.AsyncFor, ast.While)):
+            is_for = not isinstance(s, ast.While)
+            if is_for:
+                self.expr(s.iter, state)
+            head = state
+            exit_state = None
+            for _ in range(12):
+                self.loops.append({"brk": None, "cont": None})
+                if is_for:
+                    body_in = self.bind_target(head, s.target)
+                else:
+                    self.expr(s.test, head)
+                    body_in = head
+                body_out = self.block(s.body, body_in)
+                fr = self.loops.pop()
+                new_head = self.join(self.join(state, body_out), fr["cont"])
+                exit_state = (fr["brk"], head)
+                if new_head == head:
+                    break
+                head = new_head
+            else:
+                self.ok = False
+            brk, normal = exit_state
+            # loop ends normally: the test failed / the iterable is exhausted, in state `head` (for a `for`, the target
+            # keeps its last binding, which is part of head after the first iteration)
+            if is_for:
+                normal = self.join(head, None)
+            else:
+                self.expr(s.test, head)
+            after_else = self.block(s.orelse, normal)
+            return self.join(after_else, brk)
+        if isinstance(s, (ast.With, ast.AsyncWith)):
+            for it in s.items:
+                self.expr(it.context_expr, state)
+                if it.optional_vars is not None:
+                    state = self.bind_target(state, it.optional_vars)
+            acc, out = self.all_states_of(s.body, state)
+            return self.join(out, acc)  # the manager may swallow an exception raised anywhere in the body
+        if isinstance(s, ast.Try) or s.__class__.__name__ == "TryStar":
+            acc, body_out = self.all_states_of(s.body, state)
+            outs = []
+            hacc = None
+            for h in s.handlers:
+                hin = acc
+                self.expr(h.type, hin)
+                if h.name:
+                    hin = self.bind(hin, h.name, ("other", h.lineno, h.col_offset))
+                a2, hout = self.all_states_of(h.body, hin)
+                if h.name and hout is not None:
+                    hout = self.bind(hout, h.name, "unbound")
+                hacc = self.join(hacc, a2)
+                outs.append(hout)
+            eacc, else_out = self.all_states_of(s.orelse, body_out) if s.orelse else (body_out, body_out)
+            normal = else_out
+            for o in outs:
+                normal = self.join(normal, o)
+            if s.finalbody:
+                # entered from everywhere (normal completion, or an exception / return in any part)
+                everything = self.join(self.join(self.join(acc, hacc), eacc), normal)
+                saved = dict(self.reach)
+                self.block(s.finalbody, everything)  # records the reads for the exceptional entries
+                return self.block(s.finalbody, normal) if normal is not None else None
+            return normal
+        if isinstance(s, (ast.FunctionDef, ast.AsyncFunctionDef, ast.ClassDef)):
+            for d in s.decorator_list:
+                self.expr(d, state)
+            if not isinstance(s, ast.ClassDef):
+                for d in s.args.defaults + [x for x in s.args.kw_defaults if x is not None]:
+                    self.expr(d, state)
+            else:
+                for b in s.bases:
+                    self.expr(b, state)
+            for st in s.body:
+                self._walk_deferred(st)
+            return self.bind(state, s.name, ("other", s.lineno, s.col_offset))
+        if isinstance(s, (ast.Import, ast.ImportFrom)):
+            for al in s.names:
+                state = self.bind(state, (al.asname or al.name).split(".")[0], ("other", s.lineno, s.col_offset))
+            return state
+        if isinstance(s, ast.Assert):
+            self.expr(s.test, state)
+            self.expr(s.msg, state)
+            return state
+        if isinstance(s, ast.Match):
+            self.expr(s.subject, state)
+            out = state  # no case may match
+            for c in s.cases:
+                st = state
+                for n in ast.walk(c.pattern):
+                    if isinstance(n, (ast.MatchAs, ast.MatchStar)) and n.name:
+                        st = self.bind(st, n.name, ("other", n.lineno, n.col_offset))
+                    elif isinstance(n, ast.MatchMapping) and n.rest:
+                        st = self.bind(st, n.rest, ("other", n.lineno, n.col_offset))
+                    elif isinstance(n, ast.expr):
+                        self.expr(n, state)
+                self.expr(c.guard, st)
+                out = self.join(out, self.block(c.body, st))
+            return out
+        # anything else (global / nonlocal declarations, ...): reads only
+        for c in ast.iter_child_nodes(s):
+            if isinstance(c, ast.expr):
+                self.expr(c, state)
+        return state
+
+
 class FieldMap(dict):
     """(object, attribute) -> points-to set, with an index of the attributes stored per object."""
 
@@ -791,6 +1126,150 @@ class Analysis:
                     return False
         return False
 
+    # ---- reaching definitions of local variables -------------------------------------------------------------------------
+    def reach_of(self, func, node):
+        """binding sites that can reach the read `node` (see ReachingDefs), or None when unknown"""
+        rd = func.__dict__.get("_reach", self)
+        if rd is self:
+            rd = None
+            if not isinstance(func.node, ast.Lambda):
+                try:
+                    rd = ReachingDefs(func.node, self.const_syntactic)
+                except Exception:
+                    rd = None
+                if rd is not None and not rd.ok:
+                    rd = None
+            func._reach = rd
+        if rd is None:
+            return None
+        return rd.reach.get(id(node))
+
+    def read_local(self, ctx, node):
+        """value of a local-variable read from the values stored per binding site, when every binding site that can
+        reach the read is one whose value is recorded (parameter binding, or a Name target handled by assign());
+        None if the flow-insensitive value has to be used"""
+        r = self.reach_of(ctx.func, node)
+        if r is None:
+            return None
+        out = set()
+        for d in r:
+            if d == "param":
+                out |= self.V[(ctx.key, node.id + "@in")]
+            elif d == "unbound":
+                continue
+            elif len(d) == 2:
+                out |= self.V[(ctx.key, f"{node.id}@{d[0]}.{d[1]}")]
+            else:
+                return None
+        return out
+
+    # ---- the assignment that certainly reaches a read of a local variable --------------------------------------------
+    def reaching_def(self, func, node):
+        """`x` read at `node`: the statement `x = e` (single Name target) such that every execution of the read sees
+        the value assigned by the LAST execution of that statement -- or None when this cannot be told from the
+        text. Rule: walk backwards from the statement S0 that contains the read through the block that contains
+        it; the first statement that binds x must be that plain assignment, at the level of the block itself
+        (not nested in a compound statement). If the block holds no binding of x before S0, continue in the block
+        around it, provided the compound statement being left binds x nowhere (it might have, on another path or
+        in an earlier iteration). Statements of one block run in order, and only bindings (never calls: the name
+        is a local that is not declared global / nonlocal) can change x; the read must be in the function's own
+        scope and not deferred (lambda / nested def / generator expression)."""
+        cache = func.__dict__.setdefault("_rdef", {})
+        k = (node.lineno, node.col_offset, node.id)
+        if k in cache:
+            return cache[k]
+        cache[k] = res = self._reaching_def(func, node)
+        return res
+
+    def _reaching_def(self, func, node):
+        if isinstance(func.node, ast.Lambda):
+            return None
+        x = node.id
+        if x in self._bindings(func)[1] or x not in self._bindings(func)[0]:
+            return None
+        pm = self._parents(func)
+        cur = node
+        while cur in pm and not isinstance(cur, ast.stmt):
+            cur = pm[cur]
+            if isinstance(cur, (ast.Lambda, ast.GeneratorExp)):
+                return None
+        if not isinstance(cur, ast.stmt) or cur is func.node:
+            return None
+        s0 = cur
+        # bindings inside the read's own statement: allowed only as the targets of `x = ...` itself (the
+        # right-hand side is evaluated first); a loop header that is re-evaluated after the body ran is not
+        if isinstance(s0, (ast.Assign, ast.AnnAssign)) and self._binds_in([s0], x):
+            val = s0.value
+            if val is None or not ((val.lineno, val.col_offset) <= (node.lineno, node.col_offset) <= (val.end_lineno, val.end_col_offset)):
+                return None
+            if any(isinstance(n, ast.NamedExpr) and isinstance(n.target, ast.Name) and n.target.id == x for n in ast.walk(val)):
+                return None
+        elif isinstance(s0, (ast.For, ast.AsyncFor)):
+            it = s0.iter
+            if not ((it.lineno, it.col_offset) <= (node.lineno, node.col_offset) <= (it.end_lineno, it.end_col_offset)):
+                return None
+        elif self._binds_in([s0], x):
+            return None
+        while True:
+            par = pm.get(cur)
+            if par is None:
+                return None
+            block = None
+            for fld in ("body", "orelse", "finalbody"):
+                b = getattr(par, fld, None)
+                if isinstance(b, list) and any(st is cur for st in b):
+                    block = b
+            if block is None:
+                if isinstance(par, ast.ExceptHandler):
+                    # an exception may have interrupted the try body anywhere: any binding inside the Try counts
+                    tr = pm.get(par)
+                    if tr is None or self._binds_in([tr], x) or par.name == x:
+                        return None
+                    cur = tr
+                    continue
+                if isinstance(par, ast.match_case):
+                    m = pm.get(par)
+                    if m is None or self._binds_in([m], x):
+                        return None
+                    cur = m
+                    continue
+                return None
+            i = next(j for j, st in enumerate(block) if st is cur)
+            for st in reversed(block[:i]):
+                if isinstance(st, ast.Assign) and len(st.targets) == 1 and isinstance(st.targets[0], ast.Name) and st.targets[0].id == x \
+                        and not self._binds_in([ast.Expr(value=st.value)], x):
+                    return st
+                if isinstance(st, ast.AnnAssign) and st.value is not None and isinstance(st.target, ast.Name) and st.target.id == x \
+                        and not self._binds_in([ast.Expr(value=st.value)], x):
+                    return st
+                if self._binds_in([st], x):
+                    return None
+            if par is func.node:
+                return None
+            if isinstance(par, (ast.FunctionDef, ast.AsyncFunctionDef, ast.ClassDef)):
+                return None
+            # leaving the compound statement `par`: it must not bind x anywhere (other branch / earlier iteration /
+            # interrupted try body); statements of this block AFTER the read do not matter unless par is a loop
+            if isinstance(par, (ast.For, ast.AsyncFor, ast.While)):
+                if self._binds_in([par], x):
+                    return None
+            elif isinstance(par, ast.Try):
+                if self._binds_in([par], x):
+                    return None
+            else:
+                others = []
+                for fld in ("body", "orelse", "finalbody"):
+                    b = getattr(par, fld, None)
+                    if isinstance(b, list) and b is not block:
+                        others.extend(b)
+                if self._binds_in(others, x) or self._binds_in(block[:i], x):
+                    return None
+                hdr = [n for n in (getattr(par, "test", None), getattr(par, "subject", None)) if n is not None] + \
+                      [it.context_expr for it in getattr(par, "items", [])] + [it.optional_vars for it in getattr(par, "items", []) if it.optional_vars is not None]
+                if any(self._binds_in([ast.Expr(value=h)], x) for h in hdr):
+                    return None
+            cur = par
+
     def strong_defs(self, func):
         """name -> sorted end-lines of the assignments that are executed on every path through the function
         (top level, or inside an `if` whose test is constant under the assumptions): these KILL earlier
@@ -894,6 +1373,10 @@ class Analysis:
         if self.is_initial_read(ctx.func, node):
             r = set(self.V[(ctx.key, node.id + "@in")])
             return self.apply_narrow(r, ctx, node.id) if self.narrow and not self.deferred else r
+        if not self.deferred and isinstance(node.ctx, ast.Load):
+            r = self.read_local(ctx, node)
+            if r is not None:
+                return self.apply_narrow(r, ctx, node.id) if self.narrow else r
         r = self.lookup(node.id, ctx, node.lineno)
         if r is not None:
             return self.apply_narrow(set(r), ctx, node.id) if self.narrow and not self.deferred else set(r)
@@ -1473,7 +1956,19 @@ class Analysis:
         args = []
         for a in node.args:
             if isinstance(a, ast.Starred):
-                args.append(("*", self.elements(self.ev(a.value, ctx))))
+                tv = self.ev(a.value, ctx)
+                ks = {o.py if (o.kind == "cont" and isinstance(o.py, int) and not isinstance(o.py, bool)) else None for o in tv}
+                if len(ks) == 1 and None not in ks:
+                    # f(*t) where t is certainly a tuple of known length (e.g. the *args of this context, forwarded):
+                    # tuples are immutable, so position i of the call receives exactly what position i of t holds
+                    (k,) = ks
+                    for i in range(k):
+                        vals = set()
+                        for o in tv:
+                            vals |= self.F[(o, ("pos", i))]
+                        args.append((None, vals))
+                else:
+                    args.append(("*", self.elements(tv)))
             else:
                 args.append((a, self.ev(a, ctx)))
         kwargs = {}
@@ -2455,6 +2950,9 @@ class Analysis:
                 return
             strong_end = node.end_lineno if isinstance(node, (ast.Assign, ast.AnnAssign)) and not is_comp else None
             self.add(self.V[self.vkey(ctx, target.id, getattr(target, "lineno", 0), strong_end)], val)
+            if not is_comp and hasattr(target, "lineno"):
+                # the value bound at THIS binding site, for the reads it reaches (read_local)
+                self.add(self.V[(ctx.key, f"{target.id}@{target.lineno}.{target.col_offset}")], val)
         elif isinstance(target, (ast.Tuple, ast.List)):
             n = len(target.elts)
             for i, t in enumerate(target.elts):
@@ -2628,6 +3126,12 @@ class Analysis:
             self.ev(s.value, ctx)
         elif isinstance(s, ast.Assign):
             v = self.ev(s.value, ctx)
+            st = self.site(s)
+            if (st[0], st[1]) in self.cuts and not isinstance(s.value, ast.Call):
+                # cut point (see e_Call): the value assigned here is treated as not aliasing the sources
+                if any(o.kind == "SRC" for o in v | self.elements(v)):
+                    self.cut_hits.add((st[0], st[1]))
+                v = self.new_cont(s, set(), "cut")
             for t in s.targets:
                 self.assign(t, v, ctx, s)
         elif isinstance(s, ast.AnnAssign):
@@ -2775,7 +3279,7 @@ class Analysis:
         if k not in self.unsupported:
             self.unsupported[k] = self.cur.key[0] if self.cur is not None else "?"
 
-    def solve(self, max_rounds=60, max_restarts=6):
+    def solve(self, max_rounds=60, max_restarts=8):
         """Fixpoint, then decide `x is None` tests from the final points-to sets and restart with the dead
         branches removed, until the set of decided tests is stable and re-validated by the last run."""
         for restart in range(max_restarts):
@@ -2795,7 +3299,7 @@ class Analysis:
             self.alarms, self.sites, self.globals_mut = snap
             nd = dict(self.new_decided)
             validated = all(nd.get(k) == v for k, v in self.decided.items())
-            if validated and (nd == self.decided or restart >= 2):
+            if validated and (nd == self.decided or restart == max_restarts - 1):
                 # the fixpoint computed under `decided` re-derives every decision it was pruned with: by
                 # induction over the concrete execution no pruned branch is ever taken (optimistic analysis)
                 self.restarts = restart + 1
